@@ -1,4 +1,5 @@
 import CJ.Lemmas.Detector
+import CJ.Props.C07
 import CJ.Gen.C10Consts
 /-!
 # C10 — every detector announcement is acceptable to it and matches the registration
@@ -8,21 +9,12 @@ Property theorems only.  `mkS2D` / `mkClear` are the station's `sendToDetector` 
 and `pubsub_handle_s2d` (conversion first, then the operation).  `CJ.Gen.C10` holds what the real
 closures and `clearDetector` publish on the tree under test (regenerated on every run).
 
-`Announceable r` is what ingest guarantees about the announcement-relevant fields of a registration it
-admits; `CJ.Props.C07.admitted_announceable` proves it from the admission predicate.
+`CJ.Detector.Announceable r` is what ingest guarantees about the announcement-relevant fields of a
+registration it builds; `CJ.Props.C07.admitted_announceable` proves it from the ingest model, and
+`admitted_announcement_accepted` below composes the two properties.
 -/
 namespace CJ.Props.C10
 open CJ.Detector
-
-/-- the announcement-relevant guarantees of admission: phantom and registrant are 4- or 16-byte
-addresses, an IPv4 phantom comes with an IPv4 registrant, the protocol is the transport's (TCP or UDP),
-the port is a `uint16`. -/
-structure Announceable (r : Reg) : Prop where
-  phantom : (ipOf r.phantom).isSome
-  registrant : (ipOf r.registrant).isSome
-  family : (to4 r.phantom).isSome → (to4 r.registrant).isSome
-  proto : r.proto = protoTcp ∨ r.proto = protoUdp
-  port : r.port < 65536
 
 /-- IP next-header number of an `IPProto` wire value -/
 def nextHeader (p : Nat) : Nat := if p = protoTcp then 6 else 17
@@ -229,6 +221,22 @@ theorem transport_protos_acceptable :
 /-- the closures announce `New` when fresh and `Update` once used -/
 theorem announced_operations :
     CJ.Gen.C10.announcedNewOp = opNew ∧ CJ.Gen.C10.announcedUpdateOp = opUpdate := by decide
+
+/-! ### C07 ∘ C10 -/
+
+/-- the announcement the station makes for a registration that ingest built (New when it is validated,
+Update once used) is accepted by the detector as that registration's session, with the station's own
+lifetime for that state. -/
+theorem admitted_announcement_accepted (c : CJ.Ingest.Cfg) (m : CJ.Ingest.Msg) (o : CJ.Ingest.Oracles)
+    (f : CJ.Ingest.Fam) (hsel : CJ.Ingest.SelectorFam o) (r : CJ.Ingest.Reg)
+    (hr : CJ.Ingest.regOf c m o f = some r)
+    (hproto : o.proto = protoTcp ∨ o.proto = protoUdp)
+    (hport : ∀ p, o.tpPort = some p → p < 65536) (st : RegState) :
+    ∃ ph cl, ipOf r.phantom = some ph ∧ ipOf r.registrant = some cl ∧
+      dispatch (announce { phantom := r.phantom, registrant := r.registrant, port := r.port, proto := r.proto } st) =
+        .addOrUpdate { client := cl, phantom := ph, dstPort := r.port, srcPort := 0,
+                       proto := nextHeader r.proto, timeout := stationLifetime st } :=
+  timeouts_match _ (CJ.Props.C07.admitted_announceable c m o f hsel r hr hproto hport) st
 
 /-! ### non-vacuity -/
 
